@@ -315,4 +315,325 @@ theorem im0_on_machine (s : Cpu) (z : ZX) (hd : decision s z = .int) (him : s.im
       C04Sys.Good (checkInterrupt s z).2.ctl) :=
   ⟨rfl, by decide, by decide, im01_on_machine s z hd (by omega)⟩
 
+/-! ## When a boundary of a run accepts -/
+
+/-- the contention/paging invariant (hence "frame clock inside the frame") and the machine kind are kept
+by every run -/
+theorem good_run (n : Nat) (s : Cpu) (z : ZX) (hg : C04Sys.Good z.ctl) :
+    C04Sys.Good (Z80.run .hw n (s, z)).2.ctl ∧ (Z80.run .hw n (s, z)).2.ctl.kind = z.ctl.kind := by
+  obtain ⟨d, _, h⟩ := C04Sys.timed_closed.run .hw n (s, z)
+  exact ⟨(h hg).1, (h hg).2.1⟩
+
+/-- the decision of a boundary on the machine, as a function of IFF1, the EI/DI/prefix hold-off and the
+frame clock: INT exactly if enabled, not held off and within the first 32 T-states of the frame; NMI never -/
+theorem decision_on_machine (s : Cpu) (z : ZX) (hin : z.ctl.frameClocks < z.ctl.kind.specs.clocksFrame) :
+    decision s z =
+      if s.iff1 = true ∧ s.skipInt = false ∧ z.ctl.frameClocks < 32 then .int else .none := by
+  rw [decision_zx]
+  have hw := C05.int_window z.ctl hin
+  by_cases h : z.ctl.frameClocks < 32
+  · have : z.ctl.intActive = true := hw.2 h
+    cases s.skipInt <;> cases s.iff1 <;> simp [this, h]
+  · have : z.ctl.intActive = false := by
+      cases hx : z.ctl.intActive
+      · rfl
+      · exact absurd (hw.1 hx) h
+    cases s.skipInt <;> cases s.iff1 <;> simp [this, h]
+
+/-- the interrupt check never touches a pending prefix -/
+theorem checkInterrupt_ap {β : Type} [Bus β] (s : Cpu) (b : β) :
+    (checkInterrupt s b).1.activePrefix = s.activePrefix := by
+  rw [checkInterrupt_eq_decision]
+  cases decision s b
+  · rfl
+  · simp only []; rw [C02.int_effects]
+  · simp only []; rw [C02.nmi_effects]
+
+/-- **When a boundary accepts, for every program.** Run any program for any number of `emulate` calls on
+the composed machine, from any state the contention/paging invariant describes (e.g. reset) and without a
+pending prefix. At the boundary reached:
+* a maskable interrupt is accepted **iff** IFF1 is set, the previous instruction was neither EI nor DI nor a
+  parked DD/FD/ED prefix, and the frame clock is below 32;
+* otherwise nothing is accepted — the machine never raises NMI;
+* if it accepts, no prefix is pending (the property's `mayAcceptInt`); and while a prefix is pending nothing
+  would be accepted whatever the machine state were (`C02.no_accept_inside_prefix_chain` on the machine). -/
+theorem accept_iff_on_machine (n : Nat) (s : Cpu) (z : ZX) (hg : C04Sys.Good z.ctl)
+    (hap : s.activePrefix = .none) :
+    let r := Z80.run .hw n (s, z)
+    (decision r.1 r.2 = .int ↔ r.1.iff1 = true ∧ r.1.skipInt = false ∧ r.2.ctl.frameClocks < 32) ∧
+    (decision r.1 r.2 ≠ .int → decision r.1 r.2 = .none) ∧
+    (decision r.1 r.2 = .int → Spec.mayAcceptInt r.1 = true ∧ r.1.activePrefix = .none) ∧
+    (r.1.activePrefix ≠ .none → ∀ z' : ZX, decision r.1 z' = .none) := by
+  intro r
+  have hg' := (good_run n s z hg).1
+  have hd := decision_on_machine r.1 r.2 hg'.inFrame
+  have hr : C02.Reach .hw (r.1, r.2) := reach_run .hw n (s, z) (C02.Reach.init s z hap)
+  refine ⟨?_, ?_, ?_, ?_⟩
+  · rw [hd]
+    by_cases h : r.1.iff1 = true ∧ r.1.skipInt = false ∧ r.2.ctl.frameClocks < 32
+    · simp [h]
+    · simp [h]
+  · intro hne
+    rw [hd] at hne ⊢
+    by_cases h : r.1.iff1 = true ∧ r.1.skipInt = false ∧ r.2.ctl.frameClocks < 32
+    · simp [h] at hne
+    · simp [h]
+  · intro h
+    have hm := C02.int_accept_implies_spec .hw r.1 r.2 hr r.2 h
+    refine ⟨hm, ?_⟩
+    unfold Spec.mayAcceptInt at hm
+    simp at hm
+    exact hm.2
+  · intro hp z'
+    exact C02.no_accept_inside_prefix_chain .hw r.1 r.2 hr hp z'
+
+/-- … in particular for every program started from reset, on either machine -/
+theorem accept_iff_from_reset (k : Kind) (ke mo : Bool) (n : Nat) (s : Cpu) (hap : s.activePrefix = .none) :
+    let r := Z80.run .hw n (s, ZX.new k ke mo)
+    (decision r.1 r.2 = .int ↔ r.1.iff1 = true ∧ r.1.skipInt = false ∧ r.2.ctl.frameClocks < 32) ∧
+    (decision r.1 r.2 ≠ .int → decision r.1 r.2 = .none) := by
+  have h := accept_iff_on_machine n s (ZX.new k ke mo) (by have := C04Sys.good_new k; cases k <;> exact this) hap
+  exact ⟨h.1, h.2.1⟩
+
+/-- **No acceptance directly after EI or DI, for programs in RAM or ROM.** If the instruction this
+`emulate` runs — the byte the map shows at PC once the interrupt check is done, wherever it lies — is EI
+(0xFB) or DI (0xF3), then the next boundary accepts nothing, whatever the frame clock says then. -/
+theorem no_int_after_ei_di_on_machine (s : Cpu) (z : ZX) (hap : s.activePrefix = .none)
+    (hop : (checkInterrupt s z).2.ctl.mem.read (checkInterrupt s z).1.pc = 0xF3 ∨
+           (checkInterrupt s z).2.ctl.mem.read (checkInterrupt s z).1.pc = 0xFB) (z' : ZX) :
+    decision (emulate .hw (s, z)).1 z' = .none ∧
+    decision (emulate .hw (s, z)).1 (emulate .hw (s, z)).2 = .none := by
+  have key : ∀ z'' : ZX, decision (emulate .hw (s, z)).1 z'' = .none := by
+    intro z''
+    refine C02.no_int_after_ei_di .hw s z (Bus.waitMreq (checkInterrupt s z).1.pc 4 (checkInterrupt s z).2)
+      ((checkInterrupt s z).2.ctl.mem.read (checkInterrupt s z).1.pc)
+      hop ((checkInterrupt_ap s z).trans hap) ?_ z''
+    rw [← read_val _ 4]
+    rfl
+  exact ⟨key z', key _⟩
+
+/-! ## How often: whole frames between acceptances; `EI; HALT` is served exactly once per frame -/
+
+theorem total_run_mono (a b : Nat) (s : Cpu) (z : ZX) (h : a ≤ b) :
+    total (Z80.run .hw a (s, z)).2.ctl ≤ total (Z80.run .hw b (s, z)).2.ctl := by
+  obtain ⟨d, rfl⟩ := Nat.le.dest h
+  rw [run_add]
+  exact C05Sys.program_time_forward d (Z80.run .hw a (s, z)).1 (Z80.run .hw a (s, z)).2
+
+/-- frame counts are ordered like total times -/
+theorem frames_le (L p q f g : Nat) (hg : g < L) (h : p * L + f ≤ q * L + g) : p ≤ q := by
+  rcases Nat.lt_or_ge q p with hlt | hge
+  · exfalso
+    have : (q + 1) * L ≤ p * L := Nat.mul_le_mul_right _ hlt
+    rw [Nat.add_mul, Nat.one_mul] at this
+    omega
+  · exact hge
+
+/-- two times inside INT windows are a whole number of frames apart, ± 32 -/
+theorem frames_between (L fa fb pa pb : Nat) (hL : 69888 ≤ L) (hfa : fa < 32) (hfb : fb < 32)
+    (hle : pa * L + fa ≤ pb * L + fb) :
+    pa ≤ pb ∧ (pa * L + fa) + (pb - pa) * L < (pb * L + fb) + 32 ∧
+    pb * L + fb < (pa * L + fa) + (pb - pa) * L + 32 := by
+  have h1 : pa ≤ pb := frames_le L pa pb fa fb (by omega) hle
+  obtain ⟨d, rfl⟩ := Nat.le.dest h1
+  rw [Nat.add_sub_cancel_left, Nat.add_mul]
+  omega
+
+/-- from beyond the INT window of one frame to inside an INT window less than 10 T-states past the end
+of that frame: exactly one frame start -/
+theorem next_frame (L pk fk pj fj : Nat) (hfk : 32 ≤ fk) (hfkL : fk < L) (hfj : fj < 32)
+    (hle : pk * L + fk ≤ pj * L + fj) (hlt : pj * L + fj < (pk + 1) * L + 10) : pj = pk + 1 ∧ fj < 10 := by
+  rcases Nat.lt_trichotomy pj (pk + 1) with h | h | h
+  · exfalso
+    have : pj * L ≤ pk * L := Nat.mul_le_mul_right _ (by omega)
+    omega
+  · subst h; exact ⟨rfl, by omega⟩
+  · exfalso
+    have : (pk + 2) * L ≤ pj * L := Nat.mul_le_mul_right _ (by omega)
+    rw [Nat.add_mul] at this hlt
+    omega
+
+/-- **Acceptances are whole frames apart, for every program.** Take any run on the composed machine from
+a `Good` state and any two of its boundaries that accept the frame interrupt. The number of frame starts
+between them is the difference `d` of the frame counters, and the time between them is `d` frame lengths
+give or take less than 32 T-states. So: two acceptances in the same frame are less than 32 T-states apart,
+and a service routine that keeps interrupts off (or simply lasts) for 32 T-states or more is not re-entered
+before at least one frame start has passed. -/
+theorem acceptances_whole_frames_apart (n m : Nat) (s : Cpu) (z : ZX) (hg : C04Sys.Good z.ctl)
+    (h1 : decision (Z80.run .hw n (s, z)).1 (Z80.run .hw n (s, z)).2 = .int)
+    (h2 : decision (Z80.run .hw (n + m) (s, z)).1 (Z80.run .hw (n + m) (s, z)).2 = .int) :
+    let a := (Z80.run .hw n (s, z)).2.ctl
+    let b := (Z80.run .hw (n + m) (s, z)).2.ctl
+    let L := z.ctl.kind.specs.clocksFrame
+    a.passedFrames ≤ b.passedFrames ∧
+    total a + (b.passedFrames - a.passedFrames) * L < total b + 32 ∧
+    total b < total a + (b.passedFrames - a.passedFrames) * L + 32 ∧
+    (b.passedFrames = a.passedFrames → total b - total a < 32) ∧
+    (32 ≤ total b - total a → a.passedFrames < b.passedFrames) := by
+  intro a b L
+  obtain ⟨ga, ka⟩ := good_run n s z hg
+  obtain ⟨gb, kb⟩ := good_run (n + m) s z hg
+  have fa : a.frameClocks < 32 := (C05Sys.accept_only_in_int_window _ _ ga.inFrame h1).1
+  have fb : b.frameClocks < 32 := (C05Sys.accept_only_in_int_window _ _ gb.inFrame h2).1
+  have hmono := total_run_mono n (n + m) s z (by omega)
+  have hL := C04Sys.frameLen_big z.ctl.kind
+  have ta : total a = a.passedFrames * L + a.frameClocks := by unfold total; rw [ka]
+  have tb : total b = b.passedFrames * L + b.frameClocks := by unfold total; rw [kb]
+  have hmono' : total a ≤ total b := hmono
+  rw [ta, tb] at hmono' ⊢
+  obtain ⟨x1, x2, x3⟩ := frames_between L _ _ _ _ hL fa fb hmono'
+  refine ⟨x1, x2, x3, ?_, ?_⟩
+  · intro he; rw [he] at x3 ⊢; simp only [Nat.sub_self, Nat.zero_mul] at x3; omega
+  · intro h32
+    rcases Nat.lt_or_ge a.passedFrames b.passedFrames with h | h
+    · exact h
+    · exfalso
+      have he : b.passedFrames = a.passedFrames := by omega
+      rw [he] at x3 h32; simp only [Nat.sub_self, Nat.zero_mul] at x3; omega
+
+/-- a CPU waiting in HALT stays exactly so while its boundaries accept nothing -/
+theorem waiting_until_accept (s : Cpu) (z : ZX) (w : C05Halt.Waiting s z) (n : Nat)
+    (hq : ∀ m, m < n → decision (Z80.run .hw m (s, z)).1 (Z80.run .hw m (s, z)).2 = .none) :
+    C05Halt.Waiting (Z80.run .hw n (s, z)).1 (Z80.run .hw n (s, z)).2 ∧ (Z80.run .hw n (s, z)).1.pc = s.pc := by
+  induction n with
+  | zero => exact ⟨w, rfl⟩
+  | succ n ih =>
+    obtain ⟨wn, hpc⟩ := ih (fun m hm => hq m (by omega))
+    have hd := hq n (by omega)
+    rw [C05Halt.decision_waiting wn] at hd
+    have h32 : 32 ≤ (Z80.run .hw n (s, z)).2.ctl.frameClocks := by
+      rcases Nat.lt_or_ge (Z80.run .hw n (s, z)).2.ctl.frameClocks 32 with h | h
+      · simp [h] at hd
+      · exact h
+    obtain ⟨w1, hpc1, _, _⟩ := C05Halt.waiting_step wn h32
+    rw [run_succ']
+    exact ⟨w1, hpc1.trans hpc⟩
+
+/-- **HALT wakes at the *first* accepting boundary, and that is the next frame interrupt.** As
+`C05Halt.halt_wakes`, with the boundaries in between: from a waiting state there is an `n` such that the
+boundaries 0 … n-1 accept nothing (the CPU keeps re-fetching the HALT), boundary `n` accepts, still waiting
+at the same HALT, less than 10 T-states after the end of the frame in progress (or at once, if the INT
+window is still open). -/
+theorem halt_wakes_first (s : Cpu) (z : ZX) (w : C05Halt.Waiting s z) :
+    ∃ n, decision (Z80.run .hw n (s, z)).1 (Z80.run .hw n (s, z)).2 = .int ∧
+      (∀ m, m < n → decision (Z80.run .hw m (s, z)).1 (Z80.run .hw m (s, z)).2 = .none) ∧
+      C05Halt.Waiting (Z80.run .hw n (s, z)).1 (Z80.run .hw n (s, z)).2 ∧
+      (Z80.run .hw n (s, z)).1.pc = s.pc ∧
+      total (Z80.run .hw n (s, z)).2.ctl < max (total z.ctl + 1) (C05Halt.frameEnd z + 10) := by
+  obtain ⟨n0, h0, _, _, hb⟩ := C05Halt.halt_wakes s z w
+  obtain ⟨n, hle, hn, hmin⟩ :=
+    least (fun m => decision (Z80.run .hw m (s, z)).1 (Z80.run .hw m (s, z)).2 = .int) n0 h0
+  have hq : ∀ m, m < n → decision (Z80.run .hw m (s, z)).1 (Z80.run .hw m (s, z)).2 = .none := by
+    intro m hm
+    have h1 := hmin m hm
+    have h2 := C05Sys.never_nmi (Z80.run .hw m (s, z)).1 (Z80.run .hw m (s, z)).2
+    cases hd : decision (Z80.run .hw m (s, z)).1 (Z80.run .hw m (s, z)).2
+    · rfl
+    · exact absurd hd h1
+    · exact absurd hd h2
+  obtain ⟨wn, hpc⟩ := waiting_until_accept s z w n hq
+  have hmono := total_run_mono n n0 s z hle
+  exact ⟨n, hn, hq, wn, hpc, by omega⟩
+
+/-- **`EI; HALT` is served exactly once per frame.** The idiom: the program waits in HALT with interrupts
+enabled; the service routine (at 0x0038 in IM 0/1, at the IM 2 vector) re-enables interrupts no sooner than
+32 T-states after it was entered (`…; EI; RET`/`RETI`), and the program is back in `EI; HALT` before the frame
+ends. Formally, for ANY machine state and ANY code (nothing is assumed about the routine's instructions):
+* boundary 0 accepts the frame interrupt (`hacc`), in a `Good` state (every state reachable from reset);
+* `k > 0` boundaries later the CPU waits in HALT again with interrupts enabled (`hw`), in the same frame
+  (`hsame`);
+* at no boundary 1 … k are interrupts effectively enabled (IFF1 set and not directly behind the EI) earlier
+  than 32 T-states after the acceptance (`hlate` — "the handler is longer than the INT pulse").
+Then there is a boundary `j = k + n` such that
+* boundary `j` accepts, and **no boundary strictly between 0 and `j` accepts anything** — the two
+  acceptances are consecutive;
+* **exactly one frame start lies between them**: the frame counter at `j` is the one at 0 plus one, and `j`
+  lies less than 10 T-states after that frame start (the HALT loop's 4-T turns plus at most 6 T of ULA delay);
+* the time between the two acceptances is one frame length, −32 … +10 T-states;
+* at `j` the CPU is still waiting at the same HALT (so the return address pushed is the one behind it).
+The conclusion re-establishes the first hypothesis, so the statement chains over any number of frames. -/
+theorem ei_halt_once_per_frame (s : Cpu) (z : ZX) (k : Nat) (hg : C04Sys.Good z.ctl)
+    (hacc : decision s z = .int) (hk : 0 < k)
+    (hw : C05Halt.Waiting (Z80.run .hw k (s, z)).1 (Z80.run .hw k (s, z)).2)
+    (hsame : (Z80.run .hw k (s, z)).2.ctl.passedFrames = z.ctl.passedFrames)
+    (hlate : ∀ m, 0 < m → m ≤ k → (Z80.run .hw m (s, z)).1.iff1 = true →
+      (Z80.run .hw m (s, z)).1.skipInt = false → 32 ≤ total (Z80.run .hw m (s, z)).2.ctl - total z.ctl) :
+    ∃ n,
+      decision (Z80.run .hw (k + n) (s, z)).1 (Z80.run .hw (k + n) (s, z)).2 = .int ∧
+      (∀ m, 0 < m → m < k + n → decision (Z80.run .hw m (s, z)).1 (Z80.run .hw m (s, z)).2 = .none) ∧
+      (Z80.run .hw (k + n) (s, z)).2.ctl.passedFrames = z.ctl.passedFrames + 1 ∧
+      (Z80.run .hw (k + n) (s, z)).2.ctl.frameClocks < 10 ∧
+      z.ctl.kind.specs.clocksFrame - 32 < total (Z80.run .hw (k + n) (s, z)).2.ctl - total z.ctl ∧
+      total (Z80.run .hw (k + n) (s, z)).2.ctl - total z.ctl < z.ctl.kind.specs.clocksFrame + 10 ∧
+      C05Halt.Waiting (Z80.run .hw (k + n) (s, z)).1 (Z80.run .hw (k + n) (s, z)).2 ∧
+      (Z80.run .hw (k + n) (s, z)).1.pc = (Z80.run .hw k (s, z)).1.pc := by
+  have hL := C04Sys.frameLen_big z.ctl.kind
+  have f0 := (C05Sys.accept_only_in_int_window s z hg.inFrame hacc).1
+  -- the state at k
+  obtain ⟨gk, kk⟩ := good_run k s z hg
+  have fkL := gk.inFrame; rw [kk] at fkL
+  have tk : total (Z80.run .hw k (s, z)).2.ctl =
+      z.ctl.passedFrames * z.ctl.kind.specs.clocksFrame + (Z80.run .hw k (s, z)).2.ctl.frameClocks := by
+    unfold total; rw [kk, hsame]
+  have t0 : total z.ctl = z.ctl.passedFrames * z.ctl.kind.specs.clocksFrame + z.ctl.frameClocks := rfl
+  have hk32 : 32 ≤ (Z80.run .hw k (s, z)).2.ctl.frameClocks := by
+    have := hlate k hk (Nat.le_refl k) hw.iff1 hw.noSkip
+    rw [tk, t0] at this; omega
+  -- quiet inside the routine
+  have hquiet : ∀ m, 0 < m → m < k →
+      decision (Z80.run .hw m (s, z)).1 (Z80.run .hw m (s, z)).2 = .none := by
+    intro m hm0 hmk
+    obtain ⟨gm, km⟩ := good_run m s z hg
+    have fmL := gm.inFrame; rw [km] at fmL
+    rw [decision_on_machine _ _ gm.inFrame]
+    have hlo := total_run_mono 0 m s z (by omega)
+    have hhi := total_run_mono m k s z (by omega)
+    have tm : total (Z80.run .hw m (s, z)).2.ctl =
+        (Z80.run .hw m (s, z)).2.ctl.passedFrames * z.ctl.kind.specs.clocksFrame +
+          (Z80.run .hw m (s, z)).2.ctl.frameClocks := by unfold total; rw [km]
+    have hlo' : total z.ctl ≤ total (Z80.run .hw m (s, z)).2.ctl := hlo
+    rw [tm] at hhi hlo'; rw [tk] at hhi; rw [t0] at hlo'
+    have p1 := frames_le _ _ _ _ _ fmL hlo'
+    have p2 := frames_le _ _ _ _ _ fkL hhi
+    have pe : (Z80.run .hw m (s, z)).2.ctl.passedFrames = z.ctl.passedFrames := by omega
+    by_cases hc : (Z80.run .hw m (s, z)).1.iff1 = true ∧ (Z80.run .hw m (s, z)).1.skipInt = false ∧
+        (Z80.run .hw m (s, z)).2.ctl.frameClocks < 32
+    · exfalso
+      have := hlate m hm0 (by omega) hc.1 hc.2.1
+      rw [tm, t0, pe] at this
+      omega
+    · simp [hc]
+  -- the HALT loop from k on
+  obtain ⟨n, hn, hq, wn, hpc, hb⟩ := halt_wakes_first _ _ hw
+  have hrun : ∀ m, Z80.run .hw m (Z80.run .hw k (s, z)) = Z80.run .hw (k + m) (s, z) :=
+    fun m => (run_add .hw k m (s, z)).symm
+  have eta : ((Z80.run .hw k (s, z)).1, (Z80.run .hw k (s, z)).2) = Z80.run .hw k (s, z) := rfl
+  rw [eta] at hn hq wn hpc hb
+  simp only [hrun] at hn hq wn hpc hb
+  obtain ⟨gj, kj⟩ := good_run (k + n) s z hg
+  have fj := (C05Sys.accept_only_in_int_window _ _ gj.inFrame hn).1
+  have tj : total (Z80.run .hw (k + n) (s, z)).2.ctl =
+      (Z80.run .hw (k + n) (s, z)).2.ctl.passedFrames * z.ctl.kind.specs.clocksFrame +
+        (Z80.run .hw (k + n) (s, z)).2.ctl.frameClocks := by unfold total; rw [kj]
+  have hmono := total_run_mono k (k + n) s z (by omega)
+  have hfe : C05Halt.frameEnd (Z80.run .hw k (s, z)).2 =
+      (z.ctl.passedFrames + 1) * z.ctl.kind.specs.clocksFrame := by
+    unfold C05Halt.frameEnd; rw [kk, hsame]
+  rw [hfe, tk] at hb
+  rw [tk] at hmono
+  rw [tj] at hb hmono
+  have hb' : (Z80.run .hw (k + n) (s, z)).2.ctl.passedFrames * z.ctl.kind.specs.clocksFrame +
+      (Z80.run .hw (k + n) (s, z)).2.ctl.frameClocks < (z.ctl.passedFrames + 1) * z.ctl.kind.specs.clocksFrame + 10 := by
+    rw [Nat.add_mul, Nat.one_mul] at hb ⊢
+    omega
+  obtain ⟨pj, fj10⟩ := next_frame _ _ _ _ _ hk32 fkL fj hmono hb'
+  refine ⟨n, hn, ?_, pj, fj10, ?_, ?_, wn, hpc⟩
+  · intro m hm0 hmj
+    rcases Nat.lt_or_ge m k with h | h
+    · exact hquiet m hm0 h
+    · obtain ⟨d, rfl⟩ := Nat.le.dest h
+      exact hq d (by omega)
+  · rw [tj, t0, pj, Nat.add_mul, Nat.one_mul]; omega
+  · rw [tj, t0, pj, Nat.add_mul, Nat.one_mul]; omega
+
 end ZxVerif.C02Sys
